@@ -181,6 +181,8 @@ pub fn run(args: &[String]) -> i32 {
                 continue;
             }
             let mut bad = 0;
+            // process-level families cost ~0.1 s per invocation: a third of the slice
+            let count = if f.name().starts_with('b') { (count / 3).max(2) } else { count };
             for idx in 0..count {
                 let a = f.run_index(crate::DEFAULT_SEED, crate::engine::Tier::Quick, idx);
                 let b = f.run_index(crate::DEFAULT_SEED, crate::engine::Tier::Quick, idx);
